@@ -47,7 +47,10 @@ class Driver:
         p = subprocess.run([self.path], input=data.encode("utf-8"), stdout=subprocess.PIPE, stderr=subprocess.PIPE, timeout=timeout)
         if p.returncode != 0:
             raise RuntimeError("driver failed: rc=%s %s" % (p.returncode, p.stderr.decode("utf-8", "replace")[-2000:]))
-        lines = p.stdout.decode("utf-8").splitlines()
+        # one JSON document per "\n"-terminated line; str.splitlines() would also split at U+2028, U+0085, FF, ... inside strings
+        lines = p.stdout.decode("utf-8").split("\n")
+        if lines and lines[-1] == "":
+            lines.pop()
         if len(lines) != len(ops):
             raise RuntimeError("driver returned %d lines for %d ops: %s" % (len(lines), len(ops), p.stderr.decode("utf-8", "replace")[-2000:]))
         return [json.loads(l) for l in lines]
